@@ -33,6 +33,35 @@ def _log(kind, *rec):
     C().env.setdefault("calls", []).append((kind,) + rec)
 
 
+def oracle_table(model):
+    """all hash applications of the current path, evaluated under a model: the hash values the
+    solver chose (used by the replay when a witness needs substituted hash outputs)"""
+    def ev(b):
+        if isinstance(b, (bytes, bytearray)):
+            return bytes(b).hex()
+        out = []
+        for x in b.bs:
+            if isinstance(x, int):
+                out.append(x)
+            else:
+                v = model.eval(x.e, model_completion=True)
+                out.append(v.as_long() & 0xff)
+        return bytes(out).hex()
+    tab = []
+    for c in C().env.get("calls", []):
+        kind = c[0]
+        try:
+            if kind in ("sha256", "sha512", "ripemd160"):
+                tab.append([kind, [ev(c[1])], ev(c[2])])
+            elif kind == "hmac512":
+                tab.append([kind, [ev(c[1]), ev(c[2])], ev(c[3])])
+            elif kind == "pbkdf2":
+                tab.append([kind, [c[1], ev(c[2]), ev(c[3]), c[4], c[5]], ev(c[6])])
+        except Exception:
+            pass
+    return tab
+
+
 def calls(kind=None):
     cs = C().env.get("calls", [])
     return [c for c in cs if kind is None or c[0] == kind]
@@ -58,9 +87,26 @@ def _bv_of(b):
 def uf_hash(name, outbytes, *args, real=None):
     """uninterpreted function name_{len(args)...} applied to byte strings"""
     args = [_as_bytes(a) for a in args]
-    if all(isinstance(a, bytes) for a in args) and real is not None:
-        return real(*args)
+    # NB: the uninterpreted function is used on concrete arguments too -- mixing the real hash for
+    # constants with UF values for symbolic arguments that may equal those constants is unsound
     lens = [len(a) for a in args]
+    r = _uf_apply(name, outbytes, args, lens)
+    if all(isinstance(a, bytes) for a in args) and real is not None:
+        # a true fact about the real function at a concrete point (sound to add)
+        try:
+            rv = real(*args)
+            c = C()
+            for x, y in zip(r.bs, rv):
+                if isinstance(x, SxInt):
+                    c.add(x.e == y)
+        except Exception:
+            pass
+    return r
+
+
+def _uf_apply(name, outbytes, args, lens):
+    if INT_MODE_HASHES or any(isinstance(x, SxInt) and not x.is_bv for a in args if not isinstance(a, bytes) for x in a.bs):
+        return _uf_hash_int(name, outbytes, args, lens)
     dom = [z3.BitVecSort(8 * l) for l in lens if l]
     fname = "%s_%s" % (name, "_".join(map(str, lens)))
     if not dom:
@@ -68,6 +114,30 @@ def uf_hash(name, outbytes, *args, real=None):
     f = z3.Function(fname, *dom, z3.BitVecSort(8 * outbytes))
     e = f(*[_bv_of(a) for a in args if len(a)])
     return bytes_from_bv(e, outbytes)
+
+
+INT_MODE_HASHES = False     # set by harnesses whose byte strings are mathematical integers (Base58)
+
+
+def _uf_hash_int(name, outbytes, args, lens):
+    """same, for byte strings whose elements are mathematical integers (Base58 harnesses): one
+    integer-valued uninterpreted function per output byte, over one integer argument per input byte"""
+    flat = []
+    for a in args:
+        for x in (a if isinstance(a, bytes) else a.bs):
+            flat.append(z3.IntVal(x) if isinstance(x, int) else x.to_int_mode().e)
+    fname = "%s_%s_i" % (name, "_".join(map(str, lens)))
+    out = []
+    c = C()
+    for j in range(outbytes):
+        if flat:
+            f = z3.Function("%s%d" % (fname, j), *([z3.IntSort()] * len(flat)), z3.IntSort())
+            e = f(*flat)
+        else:
+            e = z3.Int("%s%d" % (fname, j))
+        c.add(e >= 0, e <= 255)
+        out.append(SxInt(e, 0, 255))
+    return SxBytes(out)
 
 
 # ------------------------------------------------------------------------------- hashes
@@ -489,26 +559,78 @@ class NativeOracle:
     """what the spec side uses during native replay: the real primitives"""
     symbolic = False
 
-    def __init__(self, prf_table=None):
-        self.prf_table = prf_table or {}
+    def __init__(self, table=None):
+        self.table = {}
+        for kind, args, out in (table or []):
+            self.table[(kind, tuple(args) if kind != "pbkdf2" else (args[0], args[1], args[2], args[3], args[4]))] = out
+
+    def _t(self, kind, *args):
+        t = self.table.get((kind, tuple(bytes(a).hex() for a in args)))
+        return None if t is None else bytes.fromhex(t)
 
     def sha256(self, b):
-        return hashlib.sha256(b).digest()
+        return self._t("sha256", b) or hashlib.sha256(b).digest()
+
+    def sha512(self, b):
+        return self._t("sha512", b) or hashlib.sha512(b).digest()
 
     def hash256(self, b):
-        return hashlib.sha256(hashlib.sha256(b).digest()).digest()
+        return self.sha256(self.sha256(b))
 
     def hmac512(self, k, m):
-        t = self.prf_table.get((bytes(k).hex(), bytes(m).hex()))
-        if t is not None:
-            return bytes.fromhex(t)
-        return _hmac.new(k, m, hashlib.sha512).digest()
+        return self._t("hmac512", k, m) or _hmac.new(k, m, hashlib.sha512).digest()
 
     def ripemd160(self, b):
-        return ref_ripemd160(b)
+        return self._t("ripemd160", b) or ref_ripemd160(b)
 
     def hash160(self, b):
-        return ref_ripemd160(hashlib.sha256(b).digest())
+        return self.ripemd160(self.sha256(b))
+
+    def patch_repo(self, R):
+        """substitute the hash primitives inside the repository's modules (from outside)"""
+        import types
+        orc = self
+
+        class _H:
+            def __init__(self, fn, data=b""):
+                self.fn, self.data = fn, bytes(data)
+
+            def update(self, d):
+                self.data += bytes(d)
+
+            def digest(self):
+                return self.fn(self.data)
+
+            def hexdigest(self):
+                return self.digest().hex()
+
+        class FakeHashlib(types.ModuleType):
+            def __getattr__(self, n):
+                return getattr(hashlib, n)
+        fh = FakeHashlib("hashlib")
+        fh.sha256 = lambda data=b"": _H(orc.sha256, data)
+        fh.sha512 = lambda data=b"": _H(orc.sha512, data)
+
+        class FakeHmac(types.ModuleType):
+            def __getattr__(self, n):
+                return getattr(_hmac, n)
+        fm = FakeHmac("hmac")
+
+        def new(key, msg=None, digestmod=None):
+            if digestmod in (hashlib.sha512, "sha512") or digestmod is fh.sha512:
+                return _H(lambda m: orc.hmac512(key, m), msg or b"")
+            return _hmac.new(key, msg, digestmod)
+        fm.new = new
+        import sys
+        for name, m in list(sys.modules.items()):
+            if name.split(".")[0] == "btc_hd_wallet" and m is not None:
+                if getattr(m, "hashlib", None) is hashlib:
+                    m.hashlib = fh
+                if getattr(m, "hmac", None) is _hmac:
+                    m.hmac = fm
+                if hasattr(m, "ripemd160") and "ripemd" not in name:
+                    real = m.ripemd160
+                    m.ripemd160 = (lambda real: lambda b: orc._t("ripemd160", b) or real(b))(real)
 
     def pbkdf2(self, name, pw, salt, it, dklen=None):
         return hashlib.pbkdf2_hmac(name, pw, salt, it, dklen)
